@@ -20,7 +20,7 @@ def run(ctx):
     if not ctx.quick:
         opts.append({"post_yields": True, "transport": "socket", "chunking": "random"})
     jobs = gc.jobs_for(progs, 12 if ctx.quick else 120, 5 if ctx.quick else 40, ctx.seed, opts)
-    res = gc.run_and_judge(ctx, jobs, ["C02.", "C10.callback-item", "C10.callback-missed", "C08."], lambda evs: sum(1 for e in evs if e["ev"] in ("deq", "cb")) >= 3, None)
+    res = gc.run_and_judge(ctx, jobs, ["C02.", "C10.callback-item", "C10.callback-missed", "C08.", "C18.channel-id-handed-out-twice"], lambda evs: sum(1 for e in evs if e["ev"] in ("deq", "cb")) >= 3, None)
     gwrun.close_pool()
     ctx.coverage.update({
         "states": mc["states"], "transitions": mc["transitions"],
